@@ -20,6 +20,11 @@ CHECKS = {
          "The model shows that with the slot / signature comparison no absent key is answered with another object for any alias relation (and that without it TLC finds the wrong-object reply); on the real server every skipped slot, keys of unloaded epochs, random signatures and absent slots / signatures whose 24-bit in-bucket hash equals a stored one are requested with 1..3 epochs loaded over JSON-RPC and gRPC; TLC judges that each answer is not-found / unavailable.",
          "sig-exists (64-bit) treated as exact; aliasing addresses are searched on an epoch with 4 000 distinct addresses (the pubkey index has 100 buckets).",
          "DESIGN.md section 7, C03", "rpc"),
+ "C09": ("model_checking",
+         "lock programs recorded from the current code; TLC exhaustive check of EpochSet.tla (Go RWMutex semantics x recorded programs); every model deadlock forced on the real MultiEpoch through mutex gates; stress run; TLC trace judge (Trace_EpochSet.tla)",
+         "The per-goroutine sequences of RLock / RUnlock / Lock / Unlock of 25 operations (all JSON-RPC and gRPC methods, REST api, listings, reload operations) are recorded from the current tree; TLC explores every multiset of 3 recorded programs with a writer under every interleaving with writer-preferring RWMutex semantics (exclusion, balance) and reports every deadlock state with its schedule; each schedule is forced on the real goroutines (a hang with all participants blocked in sync.RWMutex is the violation); a seeded stress run checks that answers for stable epochs equal the idle answers and that listings are sorted, duplicate-free and complete.",
+         "Only paths the recorder executes contribute programs (unreached lock users are listed in the evidence); repeated balanced segments are collapsed; spawned worker goroutines run ungated in replays; the stress run is free-running.",
+         "DESIGN.md section 7, C09", "epochset"),
  "C10": ("model_checking",
          "TLC exhaustive check of code-shaped EpochLoad.tla (chain of kind / epoch / root checks) which also enumerates every configuration as a replay case; real NewEpochFromConfig over fixture files; TLC trace judge (Trace_EpochLoad.tla)",
          "Every assignment of index files with <= 2 deviating roles (own file of another epoch / another CAR / wrong --epoch with the same root / another role's file) x config epoch x own-or-foreign CAR (32 296 configurations) is checked on the model (sound and complete) and replayed on the real loader (quick: all single mismatches + a seeded sample of pairs, under three concrete epoch numberings incl. epoch 0; thorough: all); on success identity fields are read back and every CID is fetched; TLC judges each outcome.",
@@ -62,6 +67,8 @@ CHECKS = {
          "DESIGN.md section 7, C06", "gsfa"),
 }
 ENGINES = [
+ {"name": "epochset", "path": "spec/EpochSet.tla", "serves_properties": ["C09"],
+  "kind_free_text": "TLA+ EpochSet (RWMutex semantics + recorded lock programs) + Trace_EpochSet; Go harness/main/c09_test.go, c09_mutex.go; go/ast rewrite of multiepoch.go"},
  {"name": "stream", "path": "spec/Stream.tla", "serves_properties": ["C19"],
   "kind_free_text": "TLA+ Ledger + StreamAbs/Stream/MC_Stream + Trace_Stream; Go harness/main/c19_test.go (recording grpc.ServerStream)"},
  {"name": "gsfapaging", "path": "spec/GsfaPaging.tla", "serves_properties": ["C07", "C03"],
